@@ -89,7 +89,6 @@ Inductive res :=
 | Accepted
 | RefusedInUse     (* checkNotInUse(): "This operation is not allowed when the circuit is being placed" *)
 | RejectedArgs     (* the setter's own argument test threw *)
-| Aborted          (* an assert() of setNets fails (assertion-enabled build, the README default) *)
 | CallDone (e : option exn).   (* a placement call: returned / threw e *)
 
 Inductive setter :=
@@ -131,14 +130,24 @@ Fixpoint setup_rows_loop (fuel : nat) (area : rect) (y rh : Z) (alt orient : boo
 Definition setup_rows (area : rect) (rh : Z) (alt init : bool) : list row :=
   setup_rows_loop (Z.to_nat ((maxY area - minY area) / rh)) area (minY area) rh alt init.
 
-(* the limits test of setNets' asserts: coloquinte.cpp:60-65 *)
-Definition set_nets_asserts (limits cells xo yo weights : list Z) : bool :=
+(* every pin names an existing cell: the loops "if (c < 0 || c >= nbCells()) throw" of addNet / setNets *)
+Definition cells_in_range (n : nat) (cells : list Z) : bool :=
+  forallb (fun x => (0 <=? x) && (x <? Z.of_nat n)) cells.
+Fixpoint sortedb (l : list Z) : bool :=
+  match l with
+  | a :: r => match r with b :: _ => (a <=? b) && sortedb r | [] => true end
+  | [] => true
+  end.
+(* the argument tests of setNets (each throws std::runtime_error): limits start with 0, are sorted, end at the number
+   of pins of the three pin vectors, one weight per net or none, pins name existing cells *)
+Definition set_nets_ok (n : nat) (limits cells xo yo weights : list Z) : bool :=
   match limits with
   | [] => false
   | l0 :: _ =>
-    (l0 =? 0) && (last limits 0 =? Z.of_nat (length cells)) && (last limits 0 =? Z.of_nat (length xo))
+    (l0 =? 0) && sortedb limits && (last limits 0 =? Z.of_nat (length cells)) && (last limits 0 =? Z.of_nat (length xo))
     && (last limits 0 =? Z.of_nat (length yo))
     && (Nat.eqb (length limits) (length weights + 1) || Nat.eqb (length weights) 0)
+    && cells_in_range n cells
   end.
 
 (* netWeights_.resize(n, 1.0f): 1.0f is 2 in the model's half units *)
@@ -146,17 +155,18 @@ Definition resize_weights (w : list Z) (n : nat) : list Z := firstn n w ++ repea
 
 Definition apply_setter (c : acirc) (s : setter) : res * acirc :=
   match s with
-  | SAddNet cells xo yo w =>                                   (* coloquinte.cpp:38-54 *)
+  | SAddNet cells xo yo w =>                                   (* Circuit::addNet *)
     if negb (Nat.eqb (length cells) (length xo) && Nat.eqb (length cells) (length yo)) then (RejectedArgs, c)
     else if inUse c then (RefusedInUse, c)
+    else if negb (cells_in_range (nb_cells c) cells) then (RejectedArgs, c)
     else match cells with
          | [] => (Accepted, c)
          | _ => (Accepted, set_nets c (netLimits c ++ [last (netLimits c) 0 + Z.of_nat (length cells)])
                                       (netWeights c ++ [w]) (pinCells c ++ cells) (pinXOffs c ++ xo) (pinYOffs c ++ yo))
          end
-  | SSetNets limits cells xo yo weights =>                     (* coloquinte.cpp:56-75 *)
+  | SSetNets limits cells xo yo weights =>                     (* Circuit::setNets: the flag first, then its argument tests *)
     if inUse c then (RefusedInUse, c)
-    else if negb (set_nets_asserts limits cells xo yo weights) then (Aborted, c)
+    else if negb (set_nets_ok (nb_cells c) limits cells xo yo weights) then (RejectedArgs, c)
     else (Accepted, set_netUpd (set_nets c limits (resize_weights weights (length limits - 1)) cells xo yo) true)
   | SSetNetWeights w =>                                        (* coloquinte.cpp:77-85 *)
     if negb (Z.of_nat (length w) =? nb_nets c) then (RejectedArgs, c)
@@ -190,8 +200,9 @@ Definition apply_setter (c : acirc) (s : setter) : res * acirc :=
 (* the argument tests alone: what a caller must respect for the setter to be accepted on an idle circuit *)
 Definition args_ok (c : acirc) (s : setter) : bool :=
   match s with
-  | SAddNet cells xo yo _ => Nat.eqb (length cells) (length xo) && Nat.eqb (length cells) (length yo)
-  | SSetNets limits cells xo yo weights => set_nets_asserts limits cells xo yo weights
+  | SAddNet cells xo yo _ =>
+    Nat.eqb (length cells) (length xo) && Nat.eqb (length cells) (length yo) && cells_in_range (nb_cells c) cells
+  | SSetNets limits cells xo yo weights => set_nets_ok (nb_cells c) limits cells xo yo weights
   | SSetNetWeights w => Z.of_nat (length w) =? nb_nets c
   | SSetRows _ => true
   | SSetupRows _ rh _ _ => 0 <? rh
@@ -415,11 +426,12 @@ Section Calls.
         end
       end.
 
-  (* DetailedPlacer::legalize: place_detailed.cpp:18-45 *)
+  (* DetailedPlacer::legalize: place_detailed.cpp:18-45 (params.check() first, then the two update flags are reset) *)
   Definition stage_legalize (o : oracle) (cb : option callback) (st : cstate) : cstate * option exn :=
+    if negb (o_params_ok o) then (st, Some EParams)
+    else
     let st1 := with_c st (set_netUpd (set_sizeUpd (cs_c st) false) false) in
-    if negb (o_params_ok o) then (st1, Some EParams)
-    else match o_leg o (cs_c st1) with
+    match o_leg o (cs_c st1) with
          | None => (st1, Some ELegalizer)
          | Some l =>
            let (c2, threw) := export_leg l (cs_c st1) in
